@@ -22,6 +22,13 @@ def small_wf(rng, mid):
         for n in range(40, 0, -1):
             text = text.replace(f'"{k}{n}"', f'"{mid}{k}{n}"').replace(f'"k{k}{n}"', f'"{mid}k{k}{n}"')
     w = json.loads(text)
+    if rng.chance(1, 4):
+        # a process that ends itself from inside a running act (acts.core.action on the act's own step): task events of the act and its step
+        # still arrive after the process has ended
+        last = w["steps"][-1]
+        last.pop("branches", None)
+        last.setdefault("acts", []).append({"id": f"{mid}ax", "uses": "acts.core.action", "params": {"action": rng.pick(["next", "abort", "error"]),
+                                                                                                      "options": {"ecode": "e9", "message": "from inside"}}})
     if rng.chance(1, 2):
         w["on"] = [{"id": f"ev{j}", "uses": "acts.event.manual"} for j in range(rng.range(1, 2))]
     return w, g.exprs
